@@ -615,6 +615,77 @@ def sweep_cases(size, quick):
             yield {"a_host": bool(k % 2), "dev": [0, 0], "sched": sched, "msgs": [dict(base, **{"from": "A" if k % 3 else "B"}, plan=pl), dict(follow, **{"from": "B" if k % 5 else "A"})], "fault": flt}
 
 
+# --------------------------------------------------------------------------------------------
+# two application threads of ONE endpoint send at the same time: still only one side transmits, but the blocks of the
+# two messages interleave on the line (E4 allows that); both must arrive once and intact (added after a seeded change
+# that dropped the partially received message whenever the first block of another message arrived)
+
+
+@st.composite
+def pair_strategy(draw):
+    sizes = draw(st.lists(st.sampled_from([0, 1, 243, 244, 245, 488, 489, 700]), min_size=2, max_size=3))
+    return {
+        "pair": {"from": draw(st.sampled_from(["A", "B"])), "sizes": sizes, "fill": draw(st.integers(0, 255)), "every": draw(st.sampled_from([0, 0, 1, 16, 100]))},
+        "a_host": draw(st.booleans()),
+        "dev": [draw(st.integers(0, 32767)), draw(st.integers(0, 32767))],
+        "sched": draw(st.one_of(st.just({"seed": 0}), st.builds(lambda x, p: {"seed": x, "switch": p}, st.integers(1, 2**31), st.sampled_from([0.1, 0.5])))),
+    }
+
+
+def run_pair(case, obs=None):
+    pr = case["pair"]
+    sender = pr["from"]
+    msgs = [{"from": sender, "via": "message", "kind": "raw", "n": n, "fill": (pr["fill"] + 17 * i) & 0xFF, "sf": [1, 1], "dev": 1, "r": 0, "w": 0, "sys": 0x9000 + i, "plan": {}} for i, n in enumerate(pr["sizes"])]
+    ref = resolve({"msgs": msgs, "a_host": case["a_host"], "dev": case["dev"], "sched": case.get("sched", {})})
+    with secsirig.make_world(case.get("sched", {})) as w:
+        line = secsirig.Line(w, a_is_host=bool(case["a_host"]), dev_a=case["dev"][0], dev_b=case["dev"][1])
+        if not line.connect():
+            return Failure("setup-failed", case, w.sim.blocked_report(), "both endpoints connected to the line")
+        ep = line.ep(sender)
+        recv = line.other(sender)
+        calls = [_build_call(ep, r) for r in ref]
+        thr_mod = __import__("secsgem.common.protocol_dispatcher", fromlist=["threading"]).threading
+        results = [None] * len(calls)
+
+        def fn():
+            ths = []
+            for i, c in enumerate(calls):
+                def run(i=i, c=c):
+                    results[i] = c()
+
+                t = thr_mod.Thread(target=run, name=f"app-sender-{i}")
+                t.start()
+                ths.append(t)
+            for t in ths:
+                t.join()
+            return list(results)
+
+        info = line.transfer(fn, sender, {"every": pr["every"]})
+        line.quiesce()
+        if info["status"] != "done":
+            return Failure(f"pair:send-{info['status']}", case, {"blocked": info.get("blocked"), "error": info.get("error")}, "both send calls return")
+        if info["error_in_call"]:
+            return Failure("pair:send-raises", case, info["error_in_call"], "True/False")
+        recs = line.ep(recv).received
+        multi = sum(1 for r in ref if len(r["frames"]) > 1)
+        if obs is not None:
+            obs.setdefault("classes", []).append("pair:concurrent-senders")
+            if multi:
+                obs["classes"].append("pair:multi-block-interleavable")
+        for r, ok in zip(ref, info["result"] or []):
+            if ok is not True:
+                continue
+            hits = [x for x in recs if x["sys"] == r["fields"]["sys"]]
+            if len(hits) != 1:
+                return Failure("pair:success-but-delivered-" + ("less" if not hits else "more") + "-than-once", case, [_rec(x) for x in hits], "exactly one message_received per successful send")
+            if hits[0]["body"] != r["body"].hex():
+                return Failure("pair:delivered-body-differs", case, _bodydiff(bytes.fromhex(hits[0]["body"]), r["body"]), "identical body")
+            hdr_diff = [f for f in secs1.MSG_FIELDS if hits[0][f] != r["fields"][f]]
+            if hdr_diff:
+                return Failure("pair:delivered-header-differs:" + "+".join(hdr_diff), case, _rec(hits[0]), r["fields"])
+    return None
+
+
 def plan(tier, seed):
     quick = tier == "quick"
     per = 100 if quick else 1250
@@ -623,10 +694,21 @@ def plan(tier, seed):
         of = 1 if size < 100 else 8
         tasks += [("sweep", {"size": size, "shard": i, "of": of}) for i in range(of)]
     tasks += [("gen", {"shard": i, "n": per}) for i in range(16)]
+    tasks += [("pair", {"shard": i, "n": 12 if quick else 300}) for i in range(4)]
     return tasks
 
 
 def run_task(name, kw, ctx):
+    if name == "pair":
+
+        def pbody(case):
+            obs = {}
+            f = run_pair(case, obs)
+            ctx.case(case, True, obs.get("classes", []))
+            return f
+
+        ctx.hyp(pair_strategy(), pbody, kw["n"], seed_offset=700 + kw["shard"])
+        return
     body = body_fn(ctx)
     if name == "gen":
         ctx.hyp(case_strategy(), body, kw["n"], seed_offset=kw["shard"])
@@ -641,4 +723,6 @@ def run_task(name, kw, ctx):
 
 
 def replay(case, ctx):
+    if "pair" in case:
+        return run_pair(case)
     return run_case(case)
